@@ -7,7 +7,9 @@ in random letter case, identifiers, numbers, both quoted literals incl. non-ASCI
 symbol of the extracted `read_symbol` / `read_double_char_op` tables, `#`, `#<digits>`) and the words of random abstract
 expressions (`exspec.case`) are rendered by the Lean printer (driver mode `renderspec`, which also prints `expect 0 ws`),
 the text is lexed by `GoldLexer::lex` (harness mode `lex`) and the tokens must be the expected ones, position by position.
-The tables are read from the generated `Gen/E2_Keywords.lean` / `Gen/E3_Symbols.lean`, so the soups follow the code."""
+A second pass prints the same kind of word lists with ARBITRARY layout (random non-empty runs of spaces, tabs, LF, CRLF and
+lone CR between the words, random blanks before and behind; driver mode `layoutspec`, theorem `lex_render_layout`), so the
+expected positions span several lines.  The tables are read from the generated `Gen/E2_Keywords.lean` / `Gen/E3_Symbols.lean`, so the soups follow the code."""
 import os
 import re
 
@@ -68,6 +70,11 @@ def word(r, tb):
 
 # spellings the printer must refuse (they are not words: the lexer would not give them back as one token)
 NOT_WORDS = [";", ";c", "'a", "'a'b'", "'a\nb'", "\"a", "\"a\"b\"", "a b", "$", "<<=", "#1a", "a-b", "1 2", " ", "é"]
+
+
+GAP0 = ["", "", " ", "\n", "  \t", "\r\n"]
+GAPS = [" ", " ", "  ", "\n", " \n  ", "\t", "\r\n", "\r\n\t", "\n\n", " \r ", "\r", "\n\r\n "]
+TAILS = ["", "", " ", "\n", "\r\n", " \t\n", "\r"]
 
 
 def render_tie(ctx, n, depth=6):
@@ -131,7 +138,34 @@ def render_tie(ctx, n, depth=6):
         if want != a:
             ctx.oracle_fail(SIG, "GoldLexer::lex on the printed text does not give back the printed words (kinds, values, positions)",
                             {"mode": "lex", "case": "lex " + t, "words": ws, "text": core.unesc(t[1:]), "implementation": a, "expected": want})
-    ctx.oblige("tie:lex_render on the compiled model (%d texts)" % len(lists), bad_model == 0,
+    # the same with arbitrary layout (`lex_render_layout`): random blank gaps, several lines
+    lay = [ws for ws in lists[fixed:] if ws] + [ws for ws in lists[:fixed:7]]
+    lay_lines = []
+    for ws in lay:
+        gaps = [ctx.rng.choice(GAP0)] + [ctx.rng.choice(GAPS) for _ in ws[1:]]
+        lay_lines.append("layoutspec " + " ".join("=%s %s" % (core.esc(g), core.esc(w)) for g, w in zip(gaps, ws)) + " =" + core.esc(ctx.rng.choice(TAILS)))
+    lspec = ctx.run_driver(lay_lines, timeout=1200)
+    bad_lay = [(l, o) for l, o in zip(lay_lines, lspec) if not o.startswith("=") or " " not in o]
+    ctx.oblige("tie:layoutspec-accepts-generated-layouts", not bad_lay, "%d, first: %s" % (len(bad_lay), bad_lay[:1]))
+    lspec = [o if o.startswith("=") and " " in o else "= -" for o in lspec]
+    ltexts = [o.split(" ", 1)[0] for o in lspec]
+    limpl = ctx.run_harness("lex", ["lex " + t for t in ltexts], timeout=1200)
+    lmodel = ctx.run_driver(["lex " + t for t in ltexts], timeout=1200)
+    multi = 0
+    for ws, line, o, a, b in zip(lay, lay_lines, lspec, limpl, lmodel):
+        t, want = o.split(" ", 1)
+        ctx.evaluations += 1
+        multi += "%{a}" in t
+        if want != b:
+            bad_model += 1
+            if len(ctx.disagreements) < 50:
+                ctx.disagreements.append(("layoutspec-vs-model-lex", line, b, want))
+        if want != a:
+            ctx.oracle_fail(SIG, "GoldLexer::lex on the printed text (arbitrary layout) does not give back the printed words (kinds, values, positions)",
+                            {"mode": "lex", "case": "lex " + t, "layout": line, "text": core.unesc(t[1:]), "implementation": a, "expected": want})
+    ctx.count("render: layouts with random blank gaps", len(lay))
+    ctx.dist["render tie: layouts spanning several lines"] = multi
+    ctx.oblige("tie:lex_render on the compiled model (%d texts)" % (len(lists) + len(lay)), bad_model == 0,
                "%d texts where the model's lexer and `expect` differ (contradicts lex_render: stale driver?)" % bad_model)
     neg = ctx.run_driver(["renderspec " + core.esc(w) for w in NOT_WORDS])
     wrong = [w for w, o in zip(NOT_WORDS, neg) if not o.startswith("bad-word")]
@@ -148,6 +182,21 @@ def replay(ctx, case):
     """re-run one printed text: Lean printer + expected tokens vs the real lexer"""
     ctx.build_harness()
     ctx.lake_build(["driver"])
+    if "layout" in case:
+        sp = ctx.run_driver([case["layout"]])[0]
+        print("layoutspec     :", sp)
+        t, want = (sp.split(" ", 1) + ["?"])[:2]
+        a = ctx.run_harness("lex", ["lex " + t])[0]
+        b = ctx.run_driver(["lex " + t])[0]
+        print("text           :", repr(core.unesc(t[1:])))
+        print("expected       :", want)
+        print("implementation :", a)
+        print("model          :", b)
+        if a != want or b != want:
+            print("VIOLATION property=C06 replay=%s" % ctx.replay)
+            return 1
+        print("the real lexer gives back the printed words")
+        return 0
     ws = case.get("words", [])
     sp = ctx.run_driver(["renderspec " + " ".join(core.esc(w) for w in ws)])[0]
     parts = sp.split(" ")
